@@ -378,3 +378,19 @@ PROPS['C05']['not_covered'] = ['put racing upsert / eviction racing upsert from 
 
 PROPS['C13']['verus_only'] = {'api': [r'CacheD::', r'MultiGetIterator::next', r'MultiGetMapIterator::next']}
 PROPS['C13']['floor'] = {'quick': 18, 'thorough': 18}
+
+PROPS['C15'] = dict(
+    level='proof', title='Every hit is accounted exactly once; reads never wait for the counting pipeline',
+    verus=['pool', 'api', 'sketch'],
+    verus_only={'pool': [r'Buffer::add', r'lemma_flat_push'], 'api': [r'CacheD::get$', r'CacheD::get_ref$', r'CacheD::mark_key_accessed', r'CacheD::map_get', r'CacheD::multi_get$', r'MultiGet'],
+                'sketch': [r'TinyLFU::increment_access$', r'TinyLFU::increment_access_for']},
+    kani={'quick': ['stats/each_increment_touches_only_its_counter'], 'thorough': []},
+    floor={'quick': 12, 'thorough': 12},
+    assumptions=[CONC, 'T6 ghost World (batches handed to the consumer)',
+                 'AdmissionPolicy::accept (a crossbeam select!) takes every batch it is handed and counts it either as added or as dropped: ASSUMED, outside both verifiers',
+                 'Pool::add picks a buffer and calls Buffer::add under its write lock (read, not verified: thread-local RNG + lock guard)'],
+    not_covered=['"for any number of reading threads" and "a read never blocks" are schedule properties: NOT decided',
+                 'the hand-over accept -> channel -> consumer thread and the added/dropped counters of accept are not under contract'],
+    explanation='SEQUENTIAL ACCOUNTING CORE ONLY. Verus: every hit of every read variant hands exactly one access record (the hash of that key) to the pool and a miss none; Buffer::add keeps every record either buffered or in exactly '
+                'one batch handed to the consumer, in order, and never exceeds its capacity; the consumer side records every hash of a batch exactly once (TinyLFU::increment_access advances the window by the batch length).',
+)
